@@ -28,6 +28,7 @@ type ObResult struct {
 	Raw      string   `json:"-"`
 	Query    string   `json:"-"`
 	Ctx      *FnCtx   `json:"-"`
+	anyOK    bool
 	Props    []string `json:"props,omitempty"`
 	SmtBytes int      `json:"smt_bytes"`
 }
@@ -156,6 +157,21 @@ func (e *Engine) VerifyFunc(fn *ssa.Function, mode string) (rep *FuncReport) {
 	var props []string
 	if fc != nil {
 		props = fc.Props
+	}
+	// vacuity at the exits: the facts assumed along the way (callee postconditions, trusted specs, loop
+	// invariants, monitor invariants) must leave at least one normal exit reachable, otherwise every
+	// postcondition proved for this function is proved about nothing
+	if fc != nil && !fc.NoReturn {
+		n := 0
+		for _, o := range outs {
+			if o.panic || n >= 4 {
+				continue
+			}
+			n++
+			rep.Vacuity = append(rep.Vacuity, &Obligation{Name: c.label + "/vacuity/some_exit_reachable", Kind: "vacuity", Func: c.label, Ctx: c,
+				NDecl: len(c.decls), Assumes: append([]string(nil), o.p.assumes...), Goal: "false", WantSat: true, Any: true, Props: fc.Props,
+				Path: strings.Join(o.p.trace, ">"), Src: "the assumptions collected on a path to a normal exit are satisfiable"})
+		}
 	}
 	for _, o := range outs {
 		q := o.p
@@ -468,6 +484,7 @@ func (e *Engine) isMutexKey(k string) bool {
 
 type runOpts struct {
 	timeoutS int
+	noRetry  bool
 	all      bool // thorough: all three solvers must agree
 	workers  int
 	keepSMT  string
@@ -571,6 +588,59 @@ func Discharge(obs []*Obligation, opt runOpts) []*ObResult {
 		}(j)
 	}
 	wg.Wait()
+	// second chance: a query that no solver decided within the limit may just have been starved (checks are
+	// often run side by side with other work). Undecided queries, and the paths skipped because of them, are run
+	// once more with three times the limit and at most four at a time; only what is still undecided then counts.
+	if !opt.noRetry {
+		var again []*job
+		undecidedName := map[string]bool{}
+		for _, j := range jobs {
+			if !j.ob.WantSat && j.res.Status != "unsat" && j.res.Status != "sat" && j.res.Status != "skipped" {
+				undecidedName[j.ob.Name] = true
+			}
+		}
+		for _, j := range jobs {
+			if j.ob.WantSat || nFailed[j.ob.Name] > 0 || !undecidedName[j.ob.Name] {
+				continue
+			}
+			if j.res.Status != "unsat" {
+				again = append(again, j)
+			}
+		}
+		sem2 := make(chan struct{}, 4)
+		var wg2 sync.WaitGroup
+		stillBad := map[string]bool{}
+		for _, j := range again {
+			wg2.Add(1)
+			sem2 <- struct{}{}
+			go func(j *job) {
+				defer wg2.Done()
+				defer func() { <-sem2 }()
+				stMu.Lock()
+				skip := stillBad[j.ob.Name]
+				stMu.Unlock()
+				if skip {
+					return // the obligation is already lost on another path
+				}
+				if j.q == "" {
+					j.q = buildQuery(j.ob)
+				}
+				first := j.res
+				j.res, j.all = solve(j.q, opt.timeoutS*3, false)
+				j.res.Time += first.Time
+				if j.res.Status == "unsat" {
+					j.res.Solver += " (on retry)"
+					j.qlen = len(j.q)
+					j.q = ""
+				} else {
+					stMu.Lock()
+					stillBad[j.ob.Name] = true
+					stMu.Unlock()
+				}
+			}(j)
+		}
+		wg2.Wait()
+	}
 	byName := map[string]*ObResult{}
 	var order []string
 	for _, j := range jobs {
@@ -595,6 +665,23 @@ func Discharge(obs []*Obligation, opt runOpts) []*ObResult {
 			r.SmtBytes = j.qlen
 		}
 		want := "unsat"
+		if j.ob.WantSat && j.ob.Any {
+			// reachable if any path is not refuted; failed only if every path is unsatisfiable
+			if j.res.Status != "unsat" {
+				r.anyOK = true
+				r.Status = "discharged"
+				r.Solver = j.res.Solver
+				if j.res.Status != "sat" {
+					r.Solver += " (unknown: not refuted)"
+				}
+			} else if !r.anyOK {
+				r.Status = "failed"
+				r.Solver = j.res.Solver
+				r.FailPath = j.ob.Path
+				r.Raw = j.res.Raw
+			}
+			continue
+		}
 		if j.ob.WantSat {
 			want = "sat"
 			if j.res.Status != "unsat" && j.res.Status != "sat" {
